@@ -34,9 +34,40 @@ FLAGS = [("lse-sum", True, True), ("lse-sum", False, False), ("sum-product", Tru
          ("sum-product", False, True), ("complex-lse-sum", True, True), ("lse-sum", True, False)]
 
 
+SOFTMAX_DIR = Parameterization(activation="softmax", initialization="dirichlet")
+
+
 def make(rnd, tid):
     """returns (circuit, description, domain sizes per variable or None if not enumerable)"""
-    k = tid % 6
+    global SOFTMAX  # pylint: disable=global-statement
+    k = tid % 7
+    # the sum weights are softmax-activated; their initialisation method varies
+    SOFTMAX = rnd.choice([Parameterization(activation="softmax", initialization="normal"),
+                          SOFTMAX_DIR,
+                          Parameterization(activation="softmax", initialization="uniform")])
+    if k == 6:
+        # a direct call of build_circuit with the weight factory of the (arity-1) sum layers only:
+        # the n-ary sum layers are documented to use the same factory
+        from cirkit.symbolic.layers import CategoricalLayer  # pylint: disable=import-outside-toplevel
+        from cirkit.templates.region_graph import (  # pylint: disable=import-outside-toplevel
+            LinearTree, PoonDomingos, QuadGraph, RandomBinaryTree)
+        from cirkit.templates.utils import parameterization_to_factory  # pylint: disable=import-outside-toplevel
+        which = rnd.choice(["qg", "pd", "rbt", "lt"])
+        if which == "qg":
+            rg, nv = QuadGraph((1, 2, 2)), 4
+        elif which == "pd":
+            rg, nv = PoonDomingos((1, 2, 2), delta=1), 4
+        elif which == "rbt":
+            rg, nv = RandomBinaryTree(4, num_repetitions=2, seed=rnd.randrange(100)), 4
+        else:
+            rg, nv = LinearTree(3, num_repetitions=2, randomize=True, seed=rnd.randrange(100)), 3
+        sp = rnd.choice(["cp", "cp-t", "tucker"])
+        ku = rnd.choice([1, 2])
+        c = rg.build_circuit(
+            input_factory=lambda scope, num_units: CategoricalLayer(scope, num_units, num_categories=2),
+            sum_product=sp, sum_weight_factory=parameterization_to_factory(SOFTMAX),
+            num_input_units=ku, num_sum_units=ku)
+        return c, f"build_circuit({which}, {sp}, units={ku}, softmax sum_weight_factory only, init={SOFTMAX.initialization})", [2] * nv
     if k == 0:
         shape = rnd.choice([(1, 2, 2), (1, 3, 3), (1, 2, 3), (2, 2, 2), (1, 1, 4), (1, 4, 4)])
         rg = rnd.choice(["quad-tree-2", "quad-tree-4", "quad-graph", "random-binary-tree", "poon-domingos"])
@@ -107,7 +138,7 @@ def record(args):
     try:
         c, desc, dom = make(rnd, tid)
         rec["args"] = desc
-        flags = FLAGS[(tid // 6) % len(FLAGS)]
+        flags = FLAGS[(tid // 7) % len(FLAGS)]
         sem, fold, opt = flags
         rec["flags"] = list(flags)
         comp = TorchCompiler(semiring=sem, fold=fold, optimize=opt)
@@ -172,7 +203,7 @@ def run(pid, tier, seed, rule, assumptions):
 
     def hook(rep):
         # direction B: the real templates
-        n = 180 if tier == "quick" else 3000
+        n = 210 if tier == "quick" else 3500
         recs = runner.pmap(record, [(k + 1, seed) for k in range(n)], chunksize=2)
         rg_props.validate(rep, recs, pid, tier, "TraceTemplates.tla", "TraceTemplates.cfg")
         rep.extra["template_records"] = len(recs)
